@@ -18,6 +18,11 @@ var arches = []string{"amd64", "arm64"}
 // Generate builds the case of a stream from its own seed (so a case can be
 // regenerated from "stream:genseed" alone).
 func Generate(genseed uint64, stream string, thorough bool) *Case {
+	if stream == "small" {
+		c := smallCase(genseed)
+		c.GenSeed, c.Thorough = genseed, thorough
+		return c
+	}
 	r := common.NewRand(genseed)
 	o := dag.DefaultOptions()
 	o.Twins = false
